@@ -14,7 +14,8 @@
     failed_load_is_noop lock_balanced loader_cache_bounded
     model_alphabet_is_overridden_interface default_loader_bounded
     recency_is_last_use_order evicted_is_least_recently_used wf_check_decides_wf
-    reload_current_noshadow_partial
+    reload_current_noshadow_partial cache_holds_most_recently_used
+    load_after_eviction_parses
 -/
 import Genshi.Lemmas.Lru
 import Genshi.Lemmas.LruAbs
@@ -123,6 +124,28 @@ theorem evicted_is_least_recently_used (cap : Nat) (ops : List (Op K V)) (pre : 
     ∀ q ∈ pre, (trun (tinit cap : Timed K V) ops).last p.1 < (trun (tinit cap : Timed K V) ops).last q.1 :=
   last_is_least_recent (trun_ordered _ ops (tinit_ordered cap)) pre p h
 
+/-- The full specification of the bounded LRU map in terms of the history: after every
+    operation sequence the cache holds the most recently used keys — every key that was ever
+    used (stored, or hit) but is not cached was last used before every cached key; keys are only
+    missing when the cache is full; and the cache never exceeds its capacity. -/
+theorem cache_holds_most_recently_used (cap : Nat) (ops : List (Op K V)) :
+    (trun (tinit cap : Timed K V) ops).a = (arun (aempty cap) ops).1 ∧
+    (∀ k p, 0 < (trun (tinit cap : Timed K V) ops).last k →
+        k ∉ akeys (trun (tinit cap : Timed K V) ops).a.items →
+        p ∈ (trun (tinit cap : Timed K V) ops).a.items →
+        (trun (tinit cap : Timed K V) ops).last k < (trun (tinit cap : Timed K V) ops).last p.1) ∧
+    ((trun (tinit cap : Timed K V) ops).a.items.length = cap ∨
+      ∀ k, 0 < (trun (tinit cap : Timed K V) ops).last k → k ∈ akeys (trun (tinit cap : Timed K V) ops).a.items) ∧
+    (trun (tinit cap : Timed K V) ops).a.items.length ≤ cap := by
+  obtain ⟨_, ht, _, hc⟩ := trun_spec _ ops (tinit_spec (K := K) (V := V) cap)
+  have hcap : (trun (tinit cap : Timed K V) ops).a.cap = cap := by
+    rw [trun_a]; exact (arun_awf (aempty_awf cap) ops).2
+  rw [hcap] at hc
+  refine ⟨trun_a _ ops, fun k p h1 h2 h3 => ht.1 k h1 h2 p h3, ?_, hc⟩
+  rcases ht.2 with h | h
+  · left; exact h.trans hcap
+  · right; exact h
+
 /-- `__iter__` yields the keys most recently used first … -/
 theorem iter_is_recency_order (a : ALru K V) : astep a .iter = (a, .keys (akeys a.items)) := rfl
 
@@ -220,6 +243,23 @@ theorem served_or_parsed (cfg : Cfg) (fs : FS) (s s' : LState) (r : Req) (t : Tm
     cases hc : s.cache.cap with
     | zero => simp [alookup]
     | succ n => simp [alookup]
+
+/-- Once a template has been evicted (or was never loaded) the next load parses the file found
+    first on the search path now — with or without automatic reloading. -/
+theorem load_after_eviction_parses (cfg : Cfg) (fs : FS) (s s' : LState) (r : Req) (t : Tmpl) (key : Key)
+    (hk : resolve cfg.path.isEmpty r = some key) (hmiss : alookup key s.cache.items = none)
+    (hf : r.fault = .none) (h : load cfg fs s r = some (s', .ok t)) :
+    ∃ entries isabs f, searchPath cfg r key = some (entries, isabs) ∧
+      firstOnPath fs key entries = some (t.loc, f) ∧ f.bad = false ∧ t.content = f.content ∧
+      t.obj = s.nextObj := by
+  obtain ⟨key', hk', hcase⟩ := served_or_parsed cfg fs s s' r t h
+  rw [hk] at hk'; cases hk'
+  rcases hcase with ⟨hl, _, _⟩ | ⟨_, hn, _⟩
+  · rw [hmiss] at hl; cases hl
+  · obtain ⟨key'', entries, isabs, f, h1, h2, h3, h4, h5, h6⟩ :=
+      load_parses_first_on_path cfg fs s s' r t h hn hf
+    rw [hk] at h1; cases h1
+    exact ⟨entries, isabs, f, h2, h3, h4, h5, h6⟩
 
 /-- With automatic reloading, after every history of writes, touches, deletions and loads
     (every modification with a new mtime), a load returns a template that has the current
